@@ -85,8 +85,10 @@ def gen_walks(ctx, stack, n, depth, weights, rng, faults):
     return out
 
 
-def gen_scenarios(ctx, stack, scns, rng, sample=None):
+def gen_scenarios(ctx, stack, scns, rng, sample=None, extra=None):
     sub = dict(STACKS[stack])
+    if extra:
+        sub.update(extra)
     sub.update({"Mode": '"scn"', "Depth": "0", "ScnSet": "{" + ", ".join(str(s) for s in scns) + "}"})
     if sample:
         r = ctx.tlc("PartRefsGen", "PartRefs.Gen.cfg", workers=1, simulate="num=%d" % sample, depth=60, seed=rng.randrange(1 << 30),
@@ -106,9 +108,11 @@ def gen_scenarios(ctx, stack, scns, rng, sample=None):
     return out
 
 
-def validate(ctx, stack, trace_path, what):
+def validate(ctx, stack, trace_path, what, extra=None):
     """TV of one driver trace; returns (lines, flagged records)."""
     sub = dict(STACKS[stack])
+    if extra:
+        sub.update(extra)
     sub["Deviations"] = ctx.deviations(props=PROPS)
     n, flagged = ctx.validate_cases("PartRefsTrace", "PartRefs.Trace.cfg", trace_path, timeout=1800, subst=sub)
     ctx.log("TV %s (%s): %d lines, %d flagged" % (what, stack, n, len(flagged)))
@@ -159,7 +163,7 @@ def count_lines(trace, stats):
             stats["rd"][e["res"]] = stats["rd"].get(e["res"], 0) + 1
 
 
-def run_programs(ctx, drv, stack, modes, progs, name, stats):
+def run_programs(ctx, drv, stack, modes, progs, name, stats, extra=None):
     """Execute the programs on the real storage once per mode; one TV over the concatenated traces."""
     pf, tf = ctx.path(name + ".progs.ndjson"), ctx.path(name + ".trace.ndjson")
     vlib.write_ndjson(pf, progs)
@@ -188,9 +192,9 @@ def run_programs(ctx, drv, stack, modes, progs, name, stats):
     ctx.log("%s %s: %d programs x %d shard(s), %d events" % (stack, "+".join(modes), len(progs), shards, len(trace)))
     vlib.write_ndjson(tf, trace)
     count_lines(trace, stats)
-    n, flagged = validate(ctx, stack, tf, name)
+    n, flagged = validate(ctx, stack, tf, name, extra)
     judge(ctx, tf, flagged, stats)
-    if len(ctx.samples) < 2:
+    if len(ctx.samples) < 2 and not extra:
         body = [e for e in trace if e["e"] not in ("reset", "Read", "Adopt")]
         mid = body[len(body) // 2]
         ctx.sample({k: mid.get(k) for k in ("e", "k", "c", "s", "res", "st", "gc", "rd", "stack")})
@@ -299,9 +303,11 @@ def run(ctx):
         ctx.mc("PartRefs", "PartRefs.MCRead.cfg", workers=4, timeout=1500, subst=dict(big, TxFree="{}"))
         must_violate(ctx, "PartRefs.MCRead.cfg", "H-C40-missing-part-eof", "ReaderOutcome")
         weights = {"W": 5, "F": 1, "T": 1, "G": 3, "R": 7}
-        plan = ctx.pick([("fs", 6, [4], None, ["api", "http"]), ("fs", 0, [5, 6], 8, ["api", "http"]), ("sql", 4, [4, 6], 8, ["api", "http"])],
-                        [("fs", 160, [4, 5], None, ["api", "http"]), ("fs", 0, [6], 300, ["api", "http"]),
-                         ("sql", 100, [4, 5, 6], 200, ["api", "http"]), ("classes", 160, [6, 7], 300, ["api", "http"])])
+        plan = ctx.pick([("fs", 6, [4, 12, 13], None, ["api", "http"]), ("fs", 0, [5, 6, 15], 10, ["api", "http"]),
+                         ("sql", 4, [4, 6, 12], 10, ["api", "http"])],
+                        [("fs", 160, [4, 5, 12, 13], None, ["api", "http"]), ("fs", 0, [6, 15], 300, ["api", "http"]),
+                         ("sql", 100, [4, 5, 6, 12, 13, 15], 250, ["api", "http"]),
+                         ("classes", 160, [6, 7, 12, 13, 15], 350, ["api", "http"])])
         stress = ctx.pick([("fs", 3, 30, 3)], [("fs", 4, 200, 4), ("sql", 4, 150, 4), ("classes", 4, 200, 4)])
 
     depth = ctx.pick(16, 22)
@@ -325,6 +331,14 @@ def run(ctx):
         if cstack != plan[0][0]:
             cp = gen_walks(ctx, cstack, ncrash, depth, weights, rng, faults)
             run_crash(ctx, drv, cstack, cp, kills, stats)
+    if ctx.prop == "C09":
+        # a store holding far more aged unreferenced parts than any batch size: one pass must list and reclaim
+        # all of them (SQL store: its deletions happen inside the condemn transaction, so the pass stays a few gates)
+        big = {"MaxId": "1300"}
+        mp = gen_scenarios(ctx, "sql", [14], rng, None, extra=big)
+        _, mtrace = run_programs(ctx, drv, "sql", ["api"], mp, "many-sql", stats, extra=big)
+        stats["many_candidates"] = max([len(e["gc"]["cand"]) for e in mtrace if e["e"] == "Gc"] + [0])
+        nprog += len(mp)
     for stack, writers, ops, readers in stress:
         run_stress(ctx, drv, stack, writers, ops, readers, stats)
     self_test(ctx, *first)
@@ -338,12 +352,14 @@ def run(ctx):
             raise vlib.Infra("coverage: %s/%s was never exercised on the real code" % (grp, key))
     if ctx.prop == "C09" and not stats.get("crashes"):
         raise vlib.Infra("coverage: no crash point was replayed")
+    if ctx.prop == "C09" and stats.get("many_candidates", 0) < 1200:
+        raise vlib.Infra("coverage: the many-candidates pass listed only %d candidates" % stats.get("many_candidates", 0))
     ctx.extra["ops_executed"] = stats["ops"]
     ctx.extra["collector_gates"] = stats["gc"]
     ctx.extra["reader_endings"] = stats["rd"]
     ctx.extra["programs"] = nprog
     ctx.extra["forced_schedules"] = stats.get("schedules", 0)
-    for k in ("crashes", "stress_reads", "stress_read_errors", "other_prop_findings"):
+    for k in ("crashes", "stress_reads", "stress_read_errors", "other_prop_findings", "many_candidates"):
         if k in stats:
             ctx.extra[k] = stats[k]
     ctx.extra["distinct_nontrivial"] = {"C08": stats["extdeletes"] + stats["ops"].get("Copy", 0),
